@@ -20,6 +20,13 @@ const WRAPPERS: &[(&str, &str, &str)] = &[
     ("cond-of-if", "if ", "; then ok 90; fi"),
     ("and-left", "", " && ok 91"),
     ("negated-group", "! { ", "\n}"),
+    // a pipeline (stages run in their own shells) INSIDE an exempt position
+    ("pipe-first-in-cond", "if { ", "\n} | vcat; then ok 90; fi"),
+    ("pipe-last-in-cond", "if : | { ", "\n}; then ok 90; fi"),
+    ("pipe-first-in-and-left", "{ ", "\n} | vcat && ok 91"),
+    ("pipe-first-negated", "! { ", "\n} | vcat"),
+    ("func-stage-in-cond", "ps() { ", "\n}; if ps | vcat; then ok 90; fi"),
+    ("subshell-stage-in-while-cond", "while ( ", "\n) | vcat; do ok 92; break; done"),
 ];
 
 const OPTSETS: &[(&str, &str)] = &[
